@@ -372,6 +372,9 @@ spif_ustr_append(spif_ustr_t self, spif_ustr_t other)
     REQUIRE_RVAL(!SPIF_USTR_ISNULL(other), FALSE);
     if (other->size && other->len) {
         self->size += other->size - 1;
+        if (self->size <= self->len + other->len) {
+            self->size = self->len + other->len + 1;
+        }
         self->s = (spif_charptr_t) REALLOC(self->s, self->size);
         memcpy(self->s + self->len, SPIF_USTR_STR(other), other->len + 1);
         self->len += other->len;
@@ -385,7 +388,7 @@ spif_ustr_append_char(spif_ustr_t self, spif_char_t c)
     ASSERT_RVAL(!SPIF_USTR_ISNULL(self), FALSE);
     self->len++;
     if (self->size <= self->len) {
-        self->size++;
+        self->size = self->len + 1;
         self->s = (spif_charptr_t) REALLOC(self->s, self->size);
     }
     self->s[self->len - 1] = c;
@@ -403,6 +406,9 @@ spif_ustr_append_from_ptr(spif_ustr_t self, spif_charptr_t other)
     len = strlen((const char *) other);
     if (len) {
         self->size += len;
+        if (self->size <= self->len + len) {
+            self->size = self->len + len + 1;
+        }
         self->s = (spif_charptr_t) REALLOC(self->s, self->size);
         memcpy(self->s + self->len, other, len + 1);
         self->len += len;
